@@ -17,3 +17,7 @@ pub assume_specification<T, E, F: FnOnce(&E)>[ Result::<T, E>::inspect_err ](r: 
 pub assume_specification<T, E, F, O: FnOnce(E) -> Result<T, F>>[ Result::<T, E>::or_else ](r: Result<T, E>, op: O) -> (o: Result<T, F>)
     requires r matches Err(e) ==> op.requires((e,)),
     ensures r matches Ok(t) ==> o == Ok::<T, F>(t), r matches Err(e) ==> op.ensures((e,), o);
+// Option::or_else (std documentation): the option itself if Some, otherwise the result of f
+pub assume_specification<T, F: FnOnce() -> Option<T>>[ Option::<T>::or_else ](o: Option<T>, f: F) -> (r: Option<T>)
+    requires o is None ==> f.requires(()),
+    ensures o matches Some(x) ==> r == Some(x), o is None ==> f.ensures((), r);
